@@ -46,7 +46,7 @@ func renderCMap(toks []model.Value, rng *rand.Rand) string {
 	sb.WriteString("%!PS-Adobe-3.0 Resource-CMap\n%%BeginResource: CMap (Test)\n")
 	// structured comments without a value at the start of a line, as the standard CMap
 	// files have them (%%EndComments, %%BeginData ...): what follows the line is code
-	seps := []string{" ", "\n", "\r\n", "  ", "\t", " % comment\n", "\n\n", "\n%%EndComments\n", "\n%%Page:\n\n", "\n%%BeginData\n"}
+	seps := []string{" ", "\n", "\r\n", "  ", "\t", " % comment\n", "%a comment right behind the token\n", "\n\n", "\n%%EndComments\n", "\n%%Page:\n\n", "\n%%BeginData\n"}
 	for i, t := range toks {
 		if i > 0 {
 			switch {
